@@ -193,7 +193,13 @@ struct RandomArgs {
 
 fn type_directed_arg(r: &mut Rng, name: &str) -> RV {
     // arguments of the documented shape, so that the value paths (not only the error paths) are exercised
-    let num = |r: &mut Rng| match r.below(4) {
+    let num = |r: &mut Rng| match r.below(6) {
+        // close to the points where series expansions, argument reductions and special cases switch over
+        4 | 5 => {
+            let center = *r.pick(&[1.0f64, -1.0, 0.0, 0.5, 2.0, 10.0, std::f64::consts::E, std::f64::consts::FRAC_PI_2, std::f64::consts::PI, 0.25, 4.0, 1024.0, 709.0, -745.0]);
+            let width = *r.pick(&[0.25f64, 0.125, 1e-3, 1e-6, 1e-9]);
+            RV::Float(center + width * ((r.below(20001) as f64 - 10000.0) / 10000.0))
+        },
         0 => RV::Int(r.int_bitlen()),
         1 => RV::Float(r.float_bits()),
         2 => RV::Float((r.below(2001) as f64 - 1000.0) / 8.0),
@@ -569,7 +575,18 @@ pub fn selfcheck() -> Result<String, String> {
 }
 
 pub fn phases(cfg: &Cfg) -> Vec<Box<dyn Phase>> {
-    let names = names();
+    phases_with(cfg, &[])
+}
+
+/// `extra`: further names to call (C01 passes the names found in the working tree's builtin table; the reference
+/// knows nothing about them, so only the panic monitor has an opinion)
+pub fn phases_with(cfg: &Cfg, extra: &[&'static str]) -> Vec<Box<dyn Phase>> {
+    let mut names = names();
+    for e in extra {
+        if !names.contains(e) {
+            names.push(e);
+        }
+    }
     let (p2, p3) = if cfg.thorough {
         let full = gen::full_pool();
         let mid: Vec<RV> = full.iter().step_by(2).cloned().collect();
